@@ -241,6 +241,7 @@ func runC15(c *core.Ctx, o Options) {
 	}
 	c.Check(nU6 >= 3, "U6", "", "state-changing handlers and goroutines found", 0, fmt.Sprint(nU6), "fewer state-changing roots than confirmed by reading")
 	checkEventPool(c, "U5")
+	c.RuleMin = map[string]int{"M1": 3, "U1": 1, "U2": 1, "U3": 1, "U4": 4, "U5": 3, "U6": 5}
 	c.MinObl = 12
 }
 
